@@ -308,7 +308,7 @@ impl Prop for C18 {
         "C18"
     }
     fn units(&self, tier: Tier) -> Vec<Unit> {
-        vec![Unit::new("worlds", if tier == Tier::Quick { 20_000 } else { 600_000 })]
+        vec![Unit::new("worlds", if tier == Tier::Quick { 100_000 } else { 2_000_000 })]
     }
     fn run_unit(&self, unit: &Unit, cases: u32, seed: u64, stats: &mut Stats) -> Option<Failure> {
         run_proptest(&unit.name, case_strategy(), cases, seed, 3000, stats, |c| guarded("C18", || run(c)))
